@@ -247,6 +247,15 @@ Theorem C16_that_in_generator : forall a path,
 Proof. exact from_arg_spec. Qed.
 Print Assumptions C16_that_in_generator.
 
+(* a whole call: the generator ends normally exactly on well-formed arguments — one list / tuple / dict, or key / structure
+   pairs, matchers at all the leaves — (otherwise AssertionError / ValueError, after the pairs before the defect have been
+   processed), and every key path it hands to an operation starts with base_key *)
+Theorem C16_that_in_arguments : forall args base_key,
+  (snd (from_args args base_key) = None <-> wf_eargs args = true) /\
+  (forall p m, In (p, m) (fst (from_args args base_key)) -> exists suffix, p = key_path base_key ++ suffix).
+Proof. exact from_args_spec. Qed.
+Print Assumptions C16_that_in_arguments.
+
 (* non-vacuity: a nested structure with a list index and two dict keys; the second leaf fails *)
 Example C16_that_in_witness :
   let a := VDict [(KStr (str_of "a"%string), VList [VInt 1; VInt 5]); (KStr (str_of "b"%string), VInt 2)] in
